@@ -75,7 +75,29 @@ def make_cert(subject_cn, subject_pub, issuer_cn, issuer_key, window="valid", se
          .public_key(subject_pub).serial_number(serial).not_valid_before(nb)
          .not_valid_after(na)
          .add_extension(x509.BasicConstraints(ca=ca, path_length=None), critical=True))
+    from cryptography.hazmat.primitives.asymmetric import ed25519, ed448
+    if isinstance(issuer_key, (ed25519.Ed25519PrivateKey, ed448.Ed448PrivateKey)):
+        return b.sign(issuer_key, None)       # (these algorithms take no separate hash)
     return b.sign(issuer_key, hashes.SHA256())
+
+
+_OTHER_KEYS = {}
+
+
+def other_algorithm_key(rng):
+    """a signing key that is not an ECDSA P-256 one: Ed25519, Ed448, RSA, P-384, P-521,
+    secp256k1 (an attacker's own key: generated once per process and kind)"""
+    from cryptography.hazmat.primitives.asymmetric import ed25519, ed448, rsa
+    kind = rng.choice(["ed25519", "ed25519", "ed448", "rsa", "p384", "p521", "secp256k1"])
+    if kind not in _OTHER_KEYS:
+        _OTHER_KEYS[kind] = {
+            "ed25519": ed25519.Ed25519PrivateKey.generate,
+            "ed448": ed448.Ed448PrivateKey.generate,
+            "rsa": lambda: rsa.generate_private_key(public_exponent=65537, key_size=2048),
+            "p384": lambda: ec.generate_private_key(ec.SECP384R1()),
+            "p521": lambda: ec.generate_private_key(ec.SECP521R1()),
+            "secp256k1": lambda: ec.generate_private_key(ec.SECP256K1())}[kind]()
+    return kind, _OTHER_KEYS[kind]
 
 
 def pem_body(cert):
